@@ -62,6 +62,24 @@ inline bool withinCapacity(const Snap &s, std::string *why = nullptr) {
     return true;
 }
 
+// Documented reasons (C07's statement) for which c3d::frame must refuse the frame F on an object of shape s; *eitherWay is set
+// when F deviates in a way the documentation is silent about (undeclared columns, sub-frame count, ragged sub-frames, duplicate names).
+inline std::set<std::string> frameRefusalReasons(const Shape &s, const SFrame &F, bool *eitherWay) {
+    std::set<std::string> reasons; bool ew = false;
+    if (s.nP != 0 && F.pts.size() != s.nP) reasons.insert("runtime:point-count");
+    for (auto &l : s.plabels) { bool found = false; for (auto &p : F.pts) if (p.name == l) found = true; if (!found) reasons.insert("invalid:label-missing"); }
+    if (!F.pts.empty() && s.prate == 0.f) reasons.insert("runtime:point-rate-0");
+    if (!F.subs.empty() && s.arate == 0.f) reasons.insert("runtime:analog-rate-0");
+    if (!F.subs.empty() && s.nC != 0 && F.subs[0].size() != s.nC) reasons.insert("runtime:channel-count");
+    if (s.nP == 0 && !F.pts.empty()) ew = true;
+    if (s.nC == 0 && !F.subs.empty() && !F.subs[0].empty()) ew = true;
+    if (F.subs.size() != (s.nC ? s.nSub : 0)) ew = true;
+    for (auto &sf : F.subs) if (sf.size() != (F.subs.empty() ? 0 : F.subs[0].size())) ew = true;
+    std::set<std::string> seen; for (auto &p : F.pts) { if (seen.count(p.name)) ew = true; seen.insert(p.name); }
+    if (eitherWay) *eitherWay = ew;
+    return reasons;
+}
+
 struct SnapFacts {
     size_t frames = 0, points = 0, channels = 0, subs = 0, userParams = 0, multiDim = 0, described = 0, nonzeroResidual = 0,
            lockedParams = 0, lockedGroups = 0, customGroups = 0, longDesc = 0, emptyShape = 0, strParams = 0;
